@@ -1,5 +1,6 @@
 import ExaModel.Lemmas.FrameFeed
 import ExaModel.Lemmas.FramePy
+import ExaModel.Lemmas.NegoSpec
 set_option linter.unusedSimpArgs false
 /-!
 # C06 — Message framing is independent of how TCP delivers the bytes
@@ -115,6 +116,26 @@ theorem c06_py_header_decision (max : Nat) (h : Bytes) :
     Exa.Generated.PyFrame.Connection.reader_async_header ⟨max⟩ (decide (h.take 16 ≠ marker)) (hdrTy h) (hdrLen h)
       (lengthValid (hdrTy h) (hdrLen h)) = liftHdr max h :=
   py_header_eq_model max h
+
+/-- **The bound is the NEGOTIATED maximum** (C06 with C07): with the maximum the two OPENs negotiate
+    (`Exa.Open.negotiate`, proved equal to the translated `Negotiated._negotiate` in Props/C07), a header
+    is refused for its length alone (`hdrLen < 19` or above the bound) exactly when the length is below 19
+    or above 65535-if-both-speakers-announced-Extended-Message-else-4096.  What copies that maximum to the connection
+    (`Peer._establish`, after both OPENs) is checked on the real `Peer` by the stage *negotiated maximum* of the C06
+    harness (findings F108, seed C06-8). -/
+theorem c06_bound_is_negotiated (o t : Exa.Open.OpenMsg) (h : Bytes) :
+    (hdrLen h < headerLen ∨ hdrLen h > (Exa.Open.negotiate o t).msgSize) ↔
+      (hdrLen h < 19 ∨
+        hdrLen h > (if o.caps.contains .extMsg && t.caps.contains .extMsg then 65535 else 4096)) := by
+  rw [Exa.Open.negotiate_msgSize]
+  rfl
+
+/-- ... and such a header is answered 1/2 (Bad Message Length), whatever its type. -/
+theorem c06_over_negotiated_is_1_2 (o t : Exa.Open.OpenMsg) (h : Bytes) (hm : h.take 16 = marker)
+    (hl : hdrLen h > (Exa.Open.negotiate o t).msgSize) :
+    hdrErr (Exa.Open.negotiate o t).msgSize h = some (1, 2) := by
+  unfold hdrErr
+  simp [hm, hl]
 
 /-- non-vacuity: a KEEPALIVE header passes, one with length 18 is refused with 1/2, a bad marker with 1/1 -/
 example : liftHdr 4096 (marker ++ [0, 19, 4]) = .ret (19, 4) ⟨4096⟩ := by decide
